@@ -61,6 +61,9 @@ type Case struct {
 	Trigger     string       `json:"trigger"`    // what unblocks waiting runners when nobody returns: close | pcancel
 	Junk        int          `json:"junk,omitempty"` // acrace: size of the lock-holding AddCloser call
 	RealClock   bool         `json:"real_clock,omitempty"` // keep clock.RealClock{}: grace = realGrace of wall time
+	Mgr         string       `json:"mgr,omitempty"`        // pctx: rm | rcm
+	PKind       string       `json:"pkind,omitempty"`      // pctx: how the caller's context is built (pctx.go)
+	PWhen       string       `json:"pwhen,omitempty"`      // pctx: prerun | before | mid | never
 }
 
 func (c Case) Key() string { return fmt.Sprintf("%+v", c) }
@@ -159,6 +162,12 @@ type world struct {
 	calls     []*call
 	nextCall  int
 	t0        time.Time
+
+	// family pctx (pctx.go): the values the bodies really returned, by identity
+	known []knownErr
+	rRet  map[int]error
+	cRet  map[int]error
+	notes []string
 }
 
 type call struct {
@@ -171,7 +180,7 @@ type call struct {
 }
 
 func newWorld(c Case) *world {
-	w := &world{c: c, armedSeen: map[int]bool{}, t0: time.Now()}
+	w := &world{c: c, armedSeen: map[int]bool{}, t0: time.Now(), rRet: map[int]error{}, cRet: map[int]error{}}
 	w.cv = sync.NewCond(&w.mu)
 	w.rTok = make([]chan struct{}, len(c.Runners)+2)
 	for i := range w.rTok {
@@ -341,6 +350,14 @@ func (w *world) runner(i int, spec RunnerSpec) concurrency.Runner {
 			doneLogged = true
 		}
 		<-w.rTok[i]
+		if w.c.Mode == "pctx" && !doneLogged && w.parent.Err() != nil {
+			// the caller's context is done: the derived one follows (context package), wait for it so
+			// that what the body reads from its own context does not depend on that propagation delay
+			select {
+			case <-ctx.Done():
+			case <-time.After(2 * time.Second):
+			}
+		}
 		if !doneLogged {
 			select {
 			case <-ctx.Done():
@@ -348,7 +365,17 @@ func (w *world) runner(i int, spec RunnerSpec) concurrency.Runner {
 			default:
 			}
 		}
-		v, err := w.retOf(i, spec)
+		var v string
+		var err error
+		if w.c.Mode == "pctx" {
+			err = w.pRet(ctx, i, spec.Ret)
+			v = w.classify(i, err)
+			w.mu.Lock()
+			w.rRet[i] = err
+			w.mu.Unlock()
+		} else {
+			v, err = w.retOf(i, spec)
+		}
 		w.emit(Event{E: "r.ret", I: i, V: v})
 		return err
 	}
@@ -377,6 +404,11 @@ func (w *world) closer(j int, spec CloserSpec) any {
 		v, err := w.closerRet(j, spec)
 		if spec.Type == "func" {
 			v, err = "nil", nil
+		}
+		if w.c.Mode == "pctx" {
+			w.mu.Lock()
+			w.cRet[j] = err
+			w.mu.Unlock()
 		}
 		if ctx != nil && ctx.Err() != nil {
 			w.mu.Lock()
@@ -420,7 +452,7 @@ func (w *world) goRun(m runnable) *call {
 			c.retSeq = w.emit(Event{E: "run.rej", I: c.id})
 			return
 		}
-		c.retSeq = w.emit(Event{E: "run.ret", I: c.id, Errs: flatten(err)})
+		c.retSeq = w.emit(Event{E: "run.ret", I: c.id, Errs: w.flat(err)})
 	}()
 	return c
 }
@@ -437,7 +469,7 @@ func (w *world) goClose(m *concurrency.RunnerCloserManager) *call {
 		defer w.recoverTo("Close")
 		err := m.Close()
 		c.err = err
-		c.retSeq = w.emit(Event{E: "close.ret", I: c.id, Errs: flatten(err)})
+		c.retSeq = w.emit(Event{E: "close.ret", I: c.id, Errs: w.flat(err)})
 	}()
 	return c
 }
@@ -609,6 +641,8 @@ func runCase(c Case) *outcome {
 		return runAddRace(c)
 	case "addstress":
 		return runAddStress(c)
+	case "pctx":
+		return runPCtx(c)
 	default:
 		return runRCM(c)
 	}
